@@ -4,10 +4,11 @@ Copy a confirmed seeded change into /verif/seeded/<Cxx>-<slug>/ and record what 
 import json, os, shutil, sys
 pid, slug, src, cmd, outcome, caught, replay = sys.argv[1:8]
 dst = "/verif/seeded/%s-%s" % (pid, slug)
+existed = os.path.exists(os.path.join(dst, "meta.json"))
 os.makedirs(dst, exist_ok=True)
 for f in ("patch.diff", "demo.py"):
     shutil.copy(os.path.join(src, f), os.path.join(dst, f))
-m = json.load(open(os.path.join(src, "meta.json")))
+m = json.load(open(os.path.join(dst, "meta.json"))) if os.path.exists(os.path.join(dst, "meta.json")) else json.load(open(os.path.join(src, "meta.json")))
 m["property"] = m.get("property", pid)
 m["confirmed"] = "patch applies to /repo HEAD with git apply; the 57 stable tests pass with it; demo.py exits non-zero patched and 0 unpatched (re-run by me in a scratch copy)"
 m.setdefault("check_results", []).append(dict(cmd=cmd, outcome=outcome, caught_by=caught, replay=replay))
